@@ -8,7 +8,6 @@ use proptest::strategy::ValueTree;
 use proptest::test_runner::{Config, RngAlgorithm, TestCaseError, TestError, TestRng, TestRunner};
 use serde_json::{json, Value};
 use std::collections::{BTreeMap, HashMap, HashSet};
-use std::io::Read;
 use std::path::{Path, PathBuf};
 use std::process::{Command, Stdio};
 use std::sync::atomic::{AtomicBool, AtomicU64, Ordering};
@@ -86,7 +85,7 @@ pub fn exec_child(bin: &Path, case: &Case, wrapper: &[String], show_stderr: bool
     };
     cmd.arg("child").arg(case.to_json());
     cmd.stdin(Stdio::null()).stdout(Stdio::piped());
-    cmd.stderr(if show_stderr { Stdio::inherit() } else { Stdio::null() });
+    cmd.stderr(if show_stderr { Stdio::inherit() } else { Stdio::piped() });
     cmd.env_remove("MV_TRACE_PARENT");
     let mut ch = match cmd.spawn() {
         Ok(c) => c,
@@ -102,10 +101,13 @@ pub fn exec_child(bin: &Path, case: &Case, wrapper: &[String], show_stderr: bool
     };
     let pid = ch.id();
     WATCH.lock().unwrap().push((pid, t0));
-    let mut so = String::new();
-    let _ = ch.stdout.take().unwrap().read_to_string(&mut so);
-    let status = ch.wait();
+    // both pipes are drained concurrently
+    let outp = ch.wait_with_output();
     WATCH.lock().unwrap().retain(|(p, _)| *p != pid);
+    let (so, se, status) = match outp {
+        Ok(o) => (String::from_utf8_lossy(&o.stdout).to_string(), String::from_utf8_lossy(&o.stderr).to_string(), Ok(o.status)),
+        Err(e) => (String::new(), String::new(), Err(e)),
+    };
     let wall_ms = t0.elapsed().as_millis();
     let mut vline = String::new();
     let mut detail = String::new();
@@ -142,7 +144,9 @@ pub fn exec_child(bin: &Path, case: &Case, wrapper: &[String], show_stderr: bool
                     if sig == libc::SIGKILL {
                         Verdict::Inconclusive("killed".into())
                     } else {
-                        Verdict::Bad(format!("crash {name}"))
+                        // what the runtime said before it died is part of the fingerprint
+                        detail = se.lines().rev().take(6).collect::<Vec<_>>().into_iter().rev().collect::<Vec<_>>().join(" | ");
+                        Verdict::Bad(format!("crash {name} {}", crash_kind(&se)))
                     }
                 }
             } else {
@@ -155,13 +159,33 @@ pub fn exec_child(bin: &Path, case: &Case, wrapper: &[String], show_stderr: bool
                     (9, _) if !wrapper.is_empty() => Verdict::Bad("memcheck invalid-access".into()),
                     (c, _) => {
                         // a panic or abort outside any verdict: the main thread of the child died
-                        Verdict::Bad(format!("child-exit code={c}"))
+                        detail = se.lines().rev().take(6).collect::<Vec<_>>().into_iter().rev().collect::<Vec<_>>().join(" | ");
+                        Verdict::Bad(format!("child-exit code={c} {}", crash_kind(&se)))
                     }
                 }
             }
         }
     };
     ChildResult { verdict, detail, report, stats, wall_ms }
+}
+
+/// a stable word for what the child printed on stderr before it died
+fn crash_kind(se: &str) -> &'static str {
+    if se.contains("panic in a destructor during cleanup") {
+        "panic-in-destructor-during-unwind"
+    } else if se.contains("non-unwinding panic") {
+        "non-unwinding-panic"
+    } else if se.contains("panicked while processing panic") || se.contains("panicked while panicking") {
+        "double-panic"
+    } else if se.contains("stack overflow") {
+        "stack-overflow"
+    } else if se.contains("free(): ") || se.contains("malloc") || se.contains("corrupted") || se.contains("tcache") {
+        "heap-corruption"
+    } else if se.contains("panicked at") {
+        "panic"
+    } else {
+        "unknown"
+    }
 }
 
 // ---------------------------------------------------------------------------------------
@@ -181,6 +205,9 @@ pub struct Finding {
     /// stored replay (relative to /verif)
     #[serde(default)]
     pub replay: String,
+    /// scenario family the fingerprint belongs to (empty = any)
+    #[serde(default)]
+    pub family: String,
 }
 
 #[derive(Clone, Debug, Default, serde::Deserialize)]
@@ -229,8 +256,10 @@ impl Known {
             Err(_) => Known::default(),
         }
     }
-    pub fn matching(&self, prop: &str, fp: &str) -> Option<&Finding> {
-        self.open.iter().find(|f| (f.property == prop || f.also.iter().any(|a| a == prop)) && glob(&f.fingerprint, fp))
+    pub fn matching(&self, prop: &str, fam: &str, fp: &str) -> Option<&Finding> {
+        self.open
+            .iter()
+            .find(|f| (f.property == prop || f.also.iter().any(|a| a == prop)) && (f.family.is_empty() || f.family == fam) && glob(&f.fingerprint, fp))
     }
 }
 
@@ -378,7 +407,7 @@ fn run_unit_runner(cfg: &RunCfg, unit: &Unit, runner_idx: usize, cases: u32, fea
         match &r.verdict {
             Verdict::Ok | Verdict::Inconclusive(_) => Ok(()),
             Verdict::Bad(fp) => {
-                if let Some(f) = known.matching(cfg.prop.id, fp) {
+                if let Some(f) = known.matching(cfg.prop.id, &case.fam, fp) {
                     if !shrinking {
                         *shared.lock().unwrap().known_hits.entry(f.name.clone()).or_insert(0) += 1;
                     }
@@ -528,7 +557,7 @@ pub fn run_property(cfg: RunCfg) -> i32 {
         regress_run += 1;
         let r = exec_child(cfg.bins.for_feat(case.feat), &case, &[], false);
         if let Verdict::Bad(fp) = &r.verdict {
-            if known.matching(cfg.prop.id, fp).is_none() {
+            if known.matching(cfg.prop.id, &case.fam, fp).is_none() {
                 println!("regression replay {} fails: {fp} {}", f.display(), r.detail);
                 violations.push((fp.clone(), f.clone()));
             }
@@ -681,7 +710,7 @@ pub fn replay(prop: &str, path: &Path, bins: &Bins, verif: &Path, valgrind: bool
         Verdict::Ok => 0,
         Verdict::Inconclusive(_) => 2,
         Verdict::Bad(fp) => {
-            if let Some(f) = known.matching(prop, &fp) {
+            if let Some(f) = known.matching(prop, &case.fam, &fp) {
                 println!("KNOWN-FINDING: property={prop} {} [{}]", f.what, f.name);
                 0
             } else {
